@@ -53,7 +53,7 @@ type Responder struct {
 	NextUpdate time.Duration       // 0: absent; negative: in the past
 	Mutate     func(der []byte) []byte
 	Slow       time.Duration // answers are delivered after this delay
-	Bulk       int // when > 0: answers carry a non-critical single extension of this many bytes (responses of CAs that
+	Bulk       int           // when > 0: answers carry a non-critical single extension of this many bytes (responses of CAs that
 	// embed responder chains, archive cutoffs, CT data ... are several KiB; size must not change what an answer means)
 	Hits       int
 	delegated  *CA
